@@ -42,7 +42,7 @@ func init() { Register(c07{}) }
 func (c07) ID() string { return "C07" }
 
 func (c07) Rule() string {
-	return "each evaluation = one (history, target batch, fault) triple executed on a real bbolt-backed shard with vamana+text+inverted indexes and a shared cache, under one seeded schedule. Faults: validation rejections (duplicate id, existing id, oversized merge, wrong field type), error from the k-th put / delete / scan / bucket-open of the batch, commit failure (proxy), disk full and meta-page write failure (bbolt failpoints), process kill at the k-th storage operation, before commit, between data-page and meta-page sync (failpoints), right after commit. A dry run counts the batch's storage operations so that k ranges over them (thorough: all k of a sampled history = exhaustive for that batch). Oracle: failed call => warm answers, cold answers on a file copy and the logical file digest equal the pre-batch state and the history continues correctly; success => post-batch state; kill => reopened copy is exactly pre- or post-batch state as the crash point dictates. Non-trivial: the fault actually fired inside a batch that had in-flight index work. Distinct: different (trace hash, fault)."
+	return "each evaluation = one (history, target batch, fault) triple executed on a real bbolt-backed shard with vamana+text+inverted indexes and a shared cache, under one seeded schedule. Faults: validation rejections (duplicate id, existing id, oversized merge, wrong field type), error from the k-th put / delete / scan / bucket-open of the batch, commit failure (proxy), disk full and meta-page write failure (bbolt failpoints), process kill at the k-th storage operation, before commit, between data-page and meta-page sync (failpoints), right after commit. A dry run counts the batch's storage operations so that k ranges over them (thorough: all k of a sampled history = exhaustive for that batch). Oracle: a batch that was handed a storage error must fail (storage-error-swallowed otherwise); failed call => warm answers, cold answers on a file copy and the logical file digest equal the pre-batch state and the history continues correctly; success => post-batch state; kill => reopened copy is exactly pre- or post-batch state as the crash point dictates. Non-trivial: the fault actually fired inside a batch that had in-flight index work. Distinct: different (trace hash, fault)."
 }
 
 var c07ErrKinds = []string{"put-err", "delete-err", "scan-err", "bucket-err", "commit-err", "diskfull", "meta-err"}
@@ -367,6 +367,13 @@ func (c *c07Run) one(f *c07Fault, k int, sub int) (ops map[string]int) {
 					env.Stat("not-fired:"+f.Kind, 1)
 				}
 				where := fmt.Sprintf("after op %d (%s) with fault %s k=%d (call error: %v)", i, op.Kind, f.Kind, k, callErr)
+				if fired && callErr == nil && !strings.HasPrefix(f.Kind, "reject-") {
+					// "meets a storage error at any step" => as if never issued: a batch that was
+					// handed a storage error must not report success (it would have to be both
+					// invisible and, having succeeded, visible)
+					env.Violate("atomicity", "storage-error-swallowed:"+f.Kind, "%s: the batch was handed a storage error but reported success", where)
+					return
+				}
 				if callErr != nil {
 					// as if never issued
 					*model = *m0
